@@ -209,7 +209,9 @@ OBLIGATIONS = [
                'thorough': 'M<=4 x every cut set x 3 separators'},
        describe=_desc),
     Ob(id='C19.b', fn=ob_b, title='index bookkeeping of Generic.concat for arbitrary measure counts (prefix import stubbed): one pair per fragment, consecutive, ending at the prefix\'s measure count',
-       budget_s={'quick': 120, 'thorough': 600}, witnesses=[{'k': 3, 'm1': 1, 'm2': 1, 'm3': 4, 'm4': 4, 'm5': 4, 'm6': 4, 'sep': 0}], min_confirmed=12,
+       budget_s={'quick': 120, 'thorough': 600}, stub_optional=True,
+       stubs=['kernpy.core.generic.create replaced by a stub returning documents with symbolic measure counts (C19.b); contract asserted on every path: one call per prefix, with the separator-joined text'],
+       witnesses=[{'k': 3, 'm1': 1, 'm2': 1, 'm3': 4, 'm4': 4, 'm5': 4, 'm6': 4, 'sep': 0}], min_confirmed=12,
        symbolic='measure counts of the six prefixes: unbounded integers, any non-decreasing sequence', enumerated='number of fragments (1..6), separator (3)',
        bounds={'quick': '1..6 fragments x 3 separators x every non-decreasing sequence of measure counts in Z (m1 >= 1)', 'thorough': 'same'}),
 ]
